@@ -288,6 +288,24 @@ def run(ctx):
             viol("C2Http.iter_recover_http(keys=)", "session_keys_iv", {"default_iv": iv == b"abcdefghijklmnop", "direction": "task", "got": str(o)[:200]})
         ctx.count_distinct(("session_iv", iv == b"abcdefghijklmnop", len(cbs)))
 
+    # session keys made from metadata / from the 16 random bytes carry the IV they were given
+    for _ in range(4 if q else 40):
+        seed16, ivx = rng.randbytes(16), rng.choice([b"abcdefghijklmnop", rng.randbytes(16)])
+        mdx = c2.BeaconMetadata()
+        mdx.aes_rand = seed16
+        dg = hashlib.sha256(seed16).digest()
+        for nm_, mk in (("BeaconKeys.from_beacon_metadata", lambda: c2.BeaconKeys.from_beacon_metadata(mdx, iv=ivx)), ("BeaconKeys.from_aes_rand", lambda: c2.BeaconKeys.from_aes_rand(seed16, iv=ivx)),
+                        ("BeaconKeys.from_beacon_metadata(default iv)", lambda: c2.BeaconKeys.from_beacon_metadata(mdx)), ("BeaconKeys", lambda: c2.BeaconKeys(aes_key=dg[:16], hmac_key=dg[16:], iv=ivx))):
+            o = core.outcome(mk)
+            ctx.evaluations += 1
+            want_iv = b"abcdefghijklmnop" if "default" in nm_ else ivx
+            if o[0] != "ok" or (bytes(o[1].aes_key), bytes(o[1].hmac_key), bytes(o[1].iv)) != (dg[:16], dg[16:], want_iv):
+                viol(nm_, "keys_or_iv", {"custom_iv": ivx != b"abcdefghijklmnop", "got": str(o)[:200]})
+                continue
+            ptx = rng.randbytes(rng.choice([0, 5, 16, 33]))
+            e = core.outcome(lambda: c2.encrypt_packet(ptx, **o[1]._asdict()))
+            if e[0] != "ok" or bytes(e[1].ciphertext) != ref_cbc_encrypt(ptx + b"A" * (16 - len(ptx) % 16), dg[:16], want_iv):
+                viol(nm_, "packet_not_under_the_configured_iv", {"custom_iv": ivx != b"abcdefghijklmnop"})
     # canary: a tampered packet that was "accepted" although verification was on
     canary = {"op": "decrypt", "ptLen": 5, "ctFlips": [["byte0", 0]], "sigFlips": [], "sigLen": 16, "ctCut": 0, "hk": "right", "ak": "right", "verify": True, "r": "ok", "isPlain": False, "outLen": 16}
     bad = core.tlc_judge(ctx, "PacketIO", ioc, ev, env={"TIER": ctx.tier}, canary=canary)
